@@ -445,7 +445,7 @@ def ob_lexer_wrapper(r, tier, seed):
             ok_ = False; detail = 'not replayed'
             try:
                 # the path condition fixes kind and slice only loosely: replay on sources that make the real lexer produce such tokens
-                cands = ['// c\r\nfn f() -> unit { () }\n', 'fn f() -> unit { () } // c\r\n', 'a\r\nb', '"s"\r\n', text]
+                cands = ['// c\r\nfn f() -> unit { () }\n', 'fn f() -> unit { () } // c\r\n', 'a\r\nb', '"s"\r\n', text, '\u00e9', 'fn f() { \u00e9 }', 'a \u65e5\u672c b', '\U0001F600', 'x\u00a0y', '@', '#$']      # incl. characters no token starts with (Err of logos), one to four bytes long
                 rc, o, e_ = build.run_driver('vreplay', '\n'.join(json.dumps({'fn': 'lex', 'args': [c_]}) for c_ in cands) + '\n')
                 for c_, l_ in zip(cands, o.splitlines()):
                     toks = json.loads(l_)['ok']; joined = ''.join(t_[1] for t_ in toks)
